@@ -1,18 +1,18 @@
 (* C02 for the generic differ with the tables read from /repo (Gen/NbConfig.v). *)
 From Coq Require Import List NArith ZArith Bool Lia String.
-From NB Require Import Base.Res Base.Json Base.PyStr Diff.DiffFormat Diff.Patch Diff.GenericDiff
+From NB Require Import Base.Res Base.Json Base.PyStr Diff.DiffFormat Diff.Patch Diff.GenericDiff Diff.Wf
      Diff.Codec Diff.StringProofs Diff.StringMaster Diff.MasterProofs Gen.NbConfig.
 Import ListNotations.
 
 Lemma generic_roundtrip O n a b :
   opcodes_valid O -> 2 * depth a < n -> wfj a = true -> wfj b = true -> same_container a b ->
-  exists d, diff_default O generic_config n a b = Ok d /\ (forall m, depth a < m -> patch m a d = Ok b).
+  exists d, diff_default O generic_config n a b = Ok d /\ (forall m, depth a < m -> patch m a d = Ok b)
+            /\ (forall f, depth a < f -> wf_diff f a d = true).
 Proof.
   intros Hops. apply diff_default_roundtrip.
   - reflexivity.
   - reflexivity.
-  - intros n0 m s t Hn Hm. destruct (string_roundtrip O generic_config Hops n0 m s t Hn Hm) as (d & H1 & H2 & _).
-    exists d. split; assumption.
+  - exact (string_roundtrip O generic_config Hops).
 Qed.
 
 Lemma generic_empty_only_if_equal O n a b :
@@ -22,8 +22,7 @@ Proof.
   intros Hops. apply diff_default_empty_only_if_equal.
   - reflexivity.
   - reflexivity.
-  - intros n0 m s t Hn Hm. destruct (string_roundtrip O generic_config Hops n0 m s t Hn Hm) as (d & H1 & H2 & _).
-    exists d. split; assumption.
+  - exact (string_roundtrip O generic_config Hops).
 Qed.
 
 (* non-vacuity: a concrete pair meets the hypotheses and the statement computes *)
